@@ -147,6 +147,23 @@ class Inliner(object):
     if un is not None:
       tree.body = un
       changed[0] = True
+    pend = getattr(self, '_pending_imports', {}).get(module.relpath)
+    if pend and changed[0]:
+      at = 0
+      while at < len(tree.body) and ((isinstance(tree.body[at], ast.Expr) and isinstance(tree.body[at].value, ast.Constant)) or
+                                     (isinstance(tree.body[at], ast.ImportFrom) and tree.body[at].module == '__future__')):
+        at += 1
+      new_imports = []
+      for alias, b in sorted(pend.items()):
+        if b[0] == 'module':
+          st = ast.Import(names=[ast.alias(name=b[1], asname=alias if alias != b[1].split('.')[0] else None)])
+        else:
+          st = ast.ImportFrom(module=b[1], names=[ast.alias(name=b[2], asname=alias if alias != b[2] else None)], level=0)
+        st.lineno = st.end_lineno = 1
+        st.col_offset = st.end_col_offset = 0
+        st._synthetic_import = True
+        new_imports.append(st)
+      tree.body[at:at] = new_imports
     return tree if changed[0] else None
 
   def _module_level(self, tree):
@@ -204,6 +221,9 @@ class Inliner(object):
       # helper1) resolve in this function's context: a few more rounds pick them up
       for _ in range(2):
         before = len([x for x in inlined if x != '<flag>'])
+        if before:
+          # generator helpers whose call came in with a spliced body (pairs = self._pairs(...); for p in pairs: ...)
+          node.body = self._delegations(node.body, fi, [fi.key], inlined, True)
         node.body = self._block(node.body, fi, [fi.key] + [x for x in inlined if x != '<flag>'], inlined, 0)
         if len([x for x in inlined if x != '<flag>']) == before:
           break
@@ -295,7 +315,8 @@ class Inliner(object):
         return None
     ys = [x for x in walk_no_nested(callee.node, include_self=False) if isinstance(x, (ast.Yield, ast.YieldFrom))]
     stmt_ys = [st for st in walk_no_nested(callee.node, include_self=False) if isinstance(st, ast.Expr) and isinstance(st.value, ast.Yield)]
-    if len(ys) != len(stmt_ys) or len(ys) > 2 or any(isinstance(y, ast.YieldFrom) for y in ys):
+    body_size = sum(1 for b in consumer_body for x in ast.walk(b) if isinstance(x, ast.stmt))
+    if len(ys) != len(stmt_ys) or (len(ys) > 2 and len(ys) * body_size > 24) or any(isinstance(y, ast.YieldFrom) for y in ys):
       return None
     has_ret = any(isinstance(x, ast.Return) for x in walk_no_nested(callee.node, include_self=False))
     ret_is_break = has_ret and _returns_leave_only_loop(callee.node)
@@ -569,11 +590,47 @@ class Inliner(object):
     if how != 'resolved' or len(cs) != 1:
       return None
     callee, via = cs[0]
-    if via in ('ctor', 'event') or callee.module is not fn.module:
+    if via in ('ctor', 'event'):
       return None
+    if callee.module is not fn.module:
+      # a helper inherited from / defined in another module: spliced when every module-level name its body reads can be
+      # made to mean the same thing in this module (an import is added to the normalised tree where needed)
+      if getattr(self, '_module', None) is None or self._foreign_names(callee, fn) is None:
+        return None
     if callee.name in NEVER_INLINE or callee.is_property:
       return None
     return callee
+
+  def _foreign_names(self, callee, fn):
+    """{name: (binding, local alias)} for the module-level names the foreign helper reads, or None when one of them cannot be
+    imported under some name into the module being normalised.  binding = ('module', m) | ('from', m, attr)."""
+    import builtins
+    home, here = callee.module, fn.module
+    node = callee.node
+    local = _locals_of(node) if not isinstance(node, ast.Lambda) else set()
+    out = {}
+    for x in ast.walk(node):
+      if not (isinstance(x, ast.Name) and isinstance(x.ctx, ast.Load)):
+        continue
+      n = x.id
+      if n in local or n in out or hasattr(builtins, n) or n in ('self', 'cls'):
+        continue
+      b = home.imports.get(n)
+      if b is None:
+        if n in home.globals or n in home.functions or n in getattr(home, 'classes', {}):
+          b = ('from', home.name, n)
+        else:
+          return None
+      hb = here.imports.get(n)
+      if hb is None and (n in here.globals or n in here.functions or n in getattr(here, 'classes', {})):
+        hb = ('from', here.name, n)
+      if hb == b:
+        out[n] = (b, n)
+      elif hb is None:
+        out[n] = (b, n)
+      else:
+        out[n] = (b, '%s__m' % n)
+    return out
 
   def _simple(self, callee, call, generator=False):
     n = callee.node
@@ -670,6 +727,16 @@ class Inliner(object):
           return None
     # names the helper reads from its module must not be captured by locals of the function it is spliced into
     free = {x.id for x in walk_no_nested(node, include_self=False) if isinstance(x, ast.Name)} - set(rename) - {'self', 'cls'}
+    if callee.module is not fn.module and getattr(fn, 'module', None) is not None:
+      fnames = self._foreign_names(callee, fn)
+      if fnames is None:
+        return None
+      pend = self.__dict__.setdefault('_pending_imports', {})
+      for n, (b, alias) in fnames.items():
+        if fn.module.imports.get(n) != b and not (b[0] == 'from' and b[1] == fn.module.name):
+          pend.setdefault(fn.module.relpath, {})[alias] = b
+        if alias != n:
+          rename.setdefault(n, alias)
     closure_of = getattr(callee, 'parent_fn', None)
     if closure_of is not None:
       # a function nested in the one it is called from: the enclosing function's locals it reads are meant to be those locals
@@ -1323,6 +1390,29 @@ def _expand_dispatch(block, module):
   while i < len(block):
     st = block[i]
     look = None
+    if isinstance(st, ast.Assign) and len(st.targets) == 1 and isinstance(st.targets[0], ast.Name) and i + 1 < len(block) and \
+       isinstance(st.value, ast.IfExp) and isinstance(st.value.body, (ast.Name, ast.Attribute)) and \
+       isinstance(st.value.orelse, (ast.Name, ast.Attribute)) and _plain_element(st.value.body) and _plain_element(st.value.orelse):
+      # f = A if c else B ; ... f(args) ...   ->   if c: ... A(args) ... else: ... B(args) ...
+      fname, use = st.targets[0].id, block[i + 1]
+      loads = [x for b in block for x in ast.walk(b) if isinstance(x, ast.Name) and x.id == fname and isinstance(x.ctx, ast.Load)]
+      stores = [x for b in block for x in ast.walk(b) if isinstance(x, ast.Name) and x.id == fname and isinstance(x.ctx, ast.Store)]
+      callee_uses = [c for c in ast.walk(use) if isinstance(c, ast.Call) and isinstance(c.func, ast.Name) and c.func.id == fname]
+      if len(loads) == 1 and len(stores) == 1 and len(callee_uses) == 1 and callee_uses[0].func is loads[0] and \
+         not isinstance(use, (ast.For, ast.While, ast.If, ast.Try, ast.With, ast.FunctionDef, ast.ClassDef)):
+        arms = []
+        for val in (st.value.body, st.value.orelse):
+          cp = _clone(use)
+          for c in ast.walk(cp):
+            if isinstance(c, ast.Call) and isinstance(c.func, ast.Name) and c.func.id == fname:
+              c.func = ast.copy_location(_clone(val), c.func)
+          arms.append(cp)
+        new_if = ast.If(test=st.value.test, body=[arms[0]], orelse=[arms[1]])
+        ast.copy_location(new_if, st)
+        ast.fix_missing_locations(new_if)
+        block[i:i + 2] = [new_if]
+        changed = True
+        continue
     if isinstance(st, ast.Assign) and len(st.targets) == 1 and isinstance(st.targets[0], ast.Name) and i + 1 < len(block):
       look, fname = _table_lookup(st.value, module), st.targets[0].id
       use = block[i + 1]
@@ -1622,6 +1712,25 @@ def _sink_delegations(block):
   and the same through an if/else whose branches end by binding x to a generator call (a generator call runs nothing
   until it is iterated, so moving the loop next to the call changes no order of evaluation)."""
   out = list(block)
+
+  def trivial(st, x):
+    """`name = {}` / [] / constant: commutes with binding x to a call that does not read name"""
+    return isinstance(st, ast.Assign) and all(isinstance(t, ast.Name) and t.id != x for t in st.targets) and \
+      isinstance(st.value, (ast.Dict, ast.List, ast.Set, ast.Tuple, ast.Constant)) and \
+      all(isinstance(y, (ast.Dict, ast.List, ast.Set, ast.Tuple, ast.Constant, ast.expr_context)) for y in ast.walk(st.value))
+  # x = gen(...); tags = {}; for t in x: ...   ->   tags = {}; x = gen(...); for t in x: ...
+  j = 0
+  while j < len(out) - 2:
+    d = out[j]
+    if isinstance(d, ast.Assign) and len(d.targets) == 1 and isinstance(d.targets[0], ast.Name) and isinstance(d.value, ast.Call):
+      x = d.targets[0].id
+      k = j + 1
+      reads = {y.id for y in ast.walk(d.value) if isinstance(y, ast.Name)}
+      while k < len(out) and trivial(out[k], x) and not ({t.id for t in out[k].targets} & reads):
+        k += 1
+      if k > j + 1 and k < len(out) and isinstance(out[k], ast.For) and isinstance(out[k].iter, ast.Name) and out[k].iter.id == x:
+        out[j:k] = out[j + 1:k] + [d]
+    j += 1
   i = 0
   while i < len(out) - 1:
     d, u = out[i], out[i + 1]
